@@ -10,6 +10,7 @@ Hand-written, branch for branch, of the code *as it is after* `fixes/C11-set-err
   * `BaseParser.parse_addition` utype/parser/base.py:390-421   → `parseAddition`
   * `BaseParser.field_first_parse / data_first_parse` base.py:423-619 (fragment) → `parseDataFF / parseDataDF`
   * `FunctionParser.parse_pos_type / parse_params` func.py:576-626 → `parsePosType`, `parseVarArgs`
+  * `ParserField.parse_output_value` field.py:984-1010, `Schema.__post_init__` schema.py:262-268 → `parseOutputValue`, `parseProps`
 
 What is *not* C11's business is abstract, so every theorem holds for all of it:
   * the element / key / value / field / addition converters are arbitrary functions `α → Option α`
@@ -247,6 +248,7 @@ def parseAddition {α : Type} (inv : Policy) (a : Addition α) (v : α) : AddOut
 
 inductive DataErr (κ : Type) where
   | absence (k : κ) | parse (k : κ) | exceed (k : κ)
+  | collected            -- only in the pre-fix model of `@property` outputs: `context.raise_error()`
   deriving DecidableEq, Repr
 
 def lookup {κ α : Type} [DecidableEq κ] (k : κ) : List (κ × α) → Option α
@@ -360,6 +362,62 @@ def parseVarArgs {α : Type} (pol : Policy) (pt : Option (Parser α)) : Nat → 
     | .unprovided => parseVarArgs pol pt (i + 1) xs
     | .raise => .error (.item i)
 
+/-! ### `@property` outputs of a data class -/
+
+/-- `ParserField.parse_output_value` (field.py:984-1010).  `onError` is the `on_error` of the Field
+decorating the getter; there is no `required` test on this path. -/
+def parseOutputValue {α : Type} (inv : Policy) (onError : Option Policy) (pt : Option (Parser α)) (x : α) : FieldOut α :=
+  match pt with
+  | none => .value x                                 -- :986-987
+  | some p =>
+    match p x with
+    | some y => .value y
+    | none =>
+      match onError.getD inv with                    -- :1000-1002
+      | .exclude => .unprovided                      -- :1003-1004, 1010
+      | .preserve => .value x                        -- :1005-1007
+      | .throw => .raise                             -- :1008-1010
+
+/-- a declared `@property`: name, `on_error`, return-type converter, and what the getter returned -/
+structure OutProp (κ α : Type) where
+  name : κ
+  onError : Option Policy
+  parse : Option (Parser α)
+  raw : α
+
+/-- `Schema.__post_init__` (schema.py:262-268) → `__coerce_property__` (:230-259) for each property in
+declaration order; log of `super().__setitem__(field.name, value)`. -/
+def parseProps {κ α : Type} (inv : Policy) : List (OutProp κ α) → Except (DataErr κ) (List (κ × α))
+  | [] => .ok []
+  | q :: qs =>
+    match parseOutputValue inv q.onError q.parse q.raw with
+    | .value y => (parseProps inv qs).map ((q.name, y) :: ·)
+    | .unprovided => parseProps inv qs
+    | .raise => .error (.parse q.name)
+
+/-- The code before `fixes/C11-output-error-isolation.patch`: the output converter ran in the instance's
+own context (`context.transformer`, no `context.enter`), so an error that a constrained type reports
+through `context.handle_error` (rule.py:1738) stayed in `context.errors` after the policy had excluded /
+preserved the value, and `context.raise_error()` at the end of `__post_init__` (schema.py:268) raised it
+anyway.  `records q` = the converter of `q` reports through `handle_error` (constraint violations of
+`Rule` types) instead of raising directly (plain `int`). -/
+def parsePropsLegacyAux {κ α : Type} (inv : Policy) (records : OutProp κ α → Bool) :
+    List (OutProp κ α) → Except (DataErr κ) (List (κ × α) × Bool)
+  | [] => .ok ([], false)
+  | q :: qs =>
+    let dirty := records q && propOffending q
+    match parseOutputValue inv q.onError q.parse q.raw with
+    | .value y => (parsePropsLegacyAux inv records qs).map fun (l, d) => ((q.name, y) :: l, d || dirty)
+    | .unprovided => (parsePropsLegacyAux inv records qs).map fun (l, d) => (l, d || dirty)
+    | .raise => .error (.parse q.name)
+where propOffending (q : OutProp κ α) : Bool := match q.parse with | some p => (p q.raw).isNone | none => false
+
+def parsePropsLegacy {κ α : Type} (inv : Policy) (records : OutProp κ α → Bool) (props : List (OutProp κ α)) :
+    Except (DataErr κ) (List (κ × α)) :=
+  match parsePropsLegacyAux inv records props with
+  | .error e => .error e
+  | .ok (l, dirty) => if dirty then .error .collected else .ok l
+
 /-! ### Specification — the property's own vocabulary, independent of the code above -/
 
 /-- an element is *offending* for a converter when the converter rejects it -/
@@ -427,5 +485,14 @@ def Field.strictified {κ α : Type} (inv : Policy) (f : Field κ α) : Field κ
 def Addition.strictified {α : Type} (inv : Policy) : Addition α → Addition α
   | .typed p => .typed (strictifyParser inv p)
   | a => a
+
+/-- a property whose offending result an `exclude` policy removes from the output -/
+def propExcluded {κ α : Type} (inv : Policy) (q : OutProp κ α) : Bool :=
+  match q.parse with
+  | some p => Offending p q.raw && q.onError.getD inv == .exclude
+  | none => false
+
+def OutProp.strictified {κ α : Type} (inv : Policy) (q : OutProp κ α) : OutProp κ α :=
+  { q with onError := some .throw, parse := q.parse.map (strictifyParser (q.onError.getD inv)) }
 
 end Utv.C11
